@@ -85,6 +85,7 @@ def under_ambient(ambient, fn):
         with numpy.errstate(all=ambient["errstate"]):
             return fn()
     if "interrupt" in ambient:
+        import linecache
         import sys
 
         budget = [int(ambient["interrupt"])]
@@ -96,6 +97,13 @@ def under_ambient(ambient, fn):
 
             def local(frame, event, arg):
                 if event == "line":
+                    # Never on a `with` line: its line events bracket the calls of __enter__ and
+                    # __exit__, where CPython does not deliver a real KeyboardInterrupt either
+                    # (bpo-29988); raising there from a trace function would skip __exit__ and
+                    # leave e.g. np.errstate unrestored - an artefact of the injection, not
+                    # something a user's Ctrl-C can do.
+                    if linecache.getline(fn, frame.f_lineno).lstrip().startswith(("with ", "async with ")):
+                        return local
                     budget[0] -= 1
                     if budget[0] <= 0:
                         sys.settrace(None)
